@@ -9,6 +9,8 @@ Cases ==
   {C(cl, k, 0, "", pl) : cl \in {"few", "many"}, k \in Kinds, pl \in Places}
   \cup {C("wrongkind", k, p, lit, pl) : k \in Kinds, p \in Pos, lit \in UNION {WrongLits(kk) : kk \in Kinds}, pl \in {"middle"}}
   \cup {C(cl, "", 0, "", pl) : cl \in {"unknown_kw", "abstract_kw", "value_for_derived", "dup_id"}, pl \in Places}
+  \* an unknown keyword as one part of an externally mapped instance whose other parts are a legal combination
+  \cup {C("unknown_kw", "complex", p, "", pl) : p \in 1..3, pl \in Places}
   \cup {C("bad_enum", k, p, v, pl) : k \in {"enum", "bool", "log"}, p \in Pos, v \in {"unrelated", "prefix", "extension", "inner"}, pl \in Places}
   \cup {C("star_not_derived", k, p, "", pl) : k \in Kinds, p \in Pos, pl \in {"middle"}}
   \cup {C("missing_aggr", k, p, "", pl) : k \in {"li", "lr"}, p \in Pos, pl \in Places}
